@@ -892,7 +892,42 @@ pub fn run(tier: Tier, seed: u64) -> i32 {
         let deg = common::min_degree(o.spec.rows);
         let pp = crate::util::pp(deg);
         let m = crate::gen::cc::max_constraints(pp.max_degree());
-        let (class, bytes) = if rng.next_u32() % 2 == 0 {
+        let pick = rng.next_u32() % 8;
+        let (class, bytes) = if pick < 2 {
+            // a non-canonical field element in the scalar table, referenced or
+            // not (value + r, r itself, all-ones)
+            match crate::gen::cc::CC::from_compressed(&valid) {
+                Some(mut c) => {
+                    let r_le: [u8; 32] = {
+                        let mut b = (-BlsScalar::one()).to_bytes();
+                        // r - 1 + 1: increment little-endian
+                        for x in b.iter_mut() {
+                            let (v, o) = x.overflowing_add(1);
+                            *x = v;
+                            if !o {
+                                break;
+                            }
+                        }
+                        b
+                    };
+                    let mut small_plus_r = r_le;
+                    small_plus_r[0] = small_plus_r[0].wrapping_add(4); // r + 4 (no carry: low byte of r is 0x01)
+                    let bad = [[0xffu8; 32], r_le, small_plus_r][rng.next_u32() as usize % 3];
+                    let referenced = !c.scalars.is_empty() && rng.next_u32() % 2 == 0;
+                    if referenced {
+                        let i = rng.next_u32() as usize % c.scalars.len();
+                        c.scalars[i] = bad;
+                    } else {
+                        c.scalars.push(bad);
+                    }
+                    (format!("structured:non-canonical-scalar-{}", if referenced { "referenced" } else { "unreferenced" }), c.to_compressed())
+                }
+                None => {
+                    let (c, b) = mutate::generic(&mut rng, &valid, &other);
+                    (format!("compressed:{c}"), b)
+                }
+            }
+        } else if pick < 5 {
             let (c, b) = mutate::generic(&mut rng, &valid, &other);
             (format!("compressed:{c}"), b)
         } else {
@@ -916,6 +951,10 @@ pub fn run(tier: Tier, seed: u64) -> i32 {
                 if rows > m {
                     ev.violation("C17:Compressed:accepted-beyond-capacity", detail());
                 }
+                if class.starts_with("structured:non-canonical-scalar") {
+                    ev.violation(&format!("C17:Compressed:accepted-malformed:{}", class.trim_start_matches("structured:")), detail());
+                }
+                ev.bucket(&format!("cc_class.{}", class.split(':').next().unwrap_or("")));
                 match guard(|| dusk_plonk::prelude::Compiler::compile_with_compressed(&pp, b"c17cc", &bytes)) {
                     Ok(_) => {}
                     Err(p) => ev.violation(&format!("C17:Compressed:accepted-description-panics-on-compile:{}", panic_site(&p)), detail()),
